@@ -223,3 +223,16 @@ def c17(run):
                 session_key=lambda ln: '"op":"reset"' in ln,
                 nontrivial=lambda e: e["op"] != "reset" and any(r.get("ok", 1) != 0 for r in e["res"].values()),
                 keyfn=lambda e: {"sys": e["sys"], "op": e["op"]})
+
+
+@check("C07")
+def c07(run):
+    run.cov["rule"] = ("ros2 events: seeded random inputs to the six ROS 2 analyses: event source / timer / polling-point callback / chain "
+                       "over nested request bounds (all arrival and cost kinds), rr and bw subchains over 1-4 callbacks of all four kinds "
+                       "with known / unknown priorities, assumed bounds WCET..WCET+20, singleton and multi-callback subchains, "
+                       "Scalar / Multiframe / Curve costs, dedicated / periodic / constrained supplies (P<=6, thorough 10), limits 1..50 (120); "
+                       "non-trivial = outcome is not Ok(0); distinct = canonical JSON of the input")
+    run.assumptions += ["definitional evaluation over the demand / arrival / cost tables recorded from the objects passed to the analysis",
+                        "supply-bound function from Supply.tla (reservation parameters alone)"]
+    trace_stage(run, "ros2", "ros2", nontrivial=lambda e: e["out"].get("ok", -1) != 0,
+                keyfn=lambda e: {k: v for k, v in e["in"].items() if k != "tags"})
